@@ -158,7 +158,17 @@ impl<'a> Resolver<'a> {
             .ok_or_else(|| ResolveError::UnboundVar(user.span(self).make(name.clone())))?;
         self.users.insert_new(definition, user);
         if let Some(dependency) = dependency {
-            self.add_dependency(local, dependency);
+            // A binder is resolved after its bindee, component by component: a reference from
+            // inside a binding to a component of its own binder that is already resolved comes
+            // from a later annotation of the same pattern. Pattern components bind left to
+            // right, so this is not a recursive reference.
+            let earlier_component = self.defs.get(&definition).is_some()
+                && local.under.iter().any(|binding| {
+                    binding.owner == dependency.owner && binding.id == dependency.id
+                });
+            if !earlier_component {
+                self.add_dependency(local, dependency);
+            }
         }
         Ok(definition)
     }
